@@ -96,6 +96,10 @@ func (p *Pool) start() (*workerProc, error) {
 	cmd.ExtraFiles = []*os.File{pw}
 	rb := &ringBuf{max: 64 << 10}
 	cmd.Stderr = rb
+	if os.Getenv("VSIM_TRACE") != "" {
+		// tracing: the worker's events are wanted as they happen
+		cmd.Stderr = io.MultiWriter(rb, os.Stderr)
+	}
 	cmd.Stdout = nil
 	if err := cmd.Start(); err != nil {
 		return nil, err
